@@ -217,7 +217,7 @@ def build(repo=None):
         FF, None, 'string_length', props=['C09'], safety_props=['C09'], label='xpath::func::string_length',
         sig_rules=[R_UNUSED], requires=[arity_req(ar['string_length'])],
         rules=[R_NODEARG, R_TOSTRING, R_ASF64, R_COUNT],
-        ensures=[('C09:counts_characters', 'args@.len() >= 1 && r is Ok ==> r->Ok_0 is Number && r->Ok_0->Number_0 == f64_of_nat(string_of(args@[0]).len())')])
+        ensures=[('C05+C09:counts_characters', 'args@.len() >= 1 && r is Ok ==> r->Ok_0 is Number && r->Ok_0->Number_0 == f64_of_nat(string_of(args@[0]).len())')])
     fns['id'] = Fn(
         FF, None, 'id', props=['C06'], safety_props=['C06'], label='xpath::func::id', sig_rules=[R_UNUSED2], requires=[arity_req(ar['id']).__class__((arity_req(ar['id'])[0], arity_req(ar['id'])[1].replace('args@', '_args@')))],
         rules=[Rule('R21', r'unimplemented!\(\)', 'shim_unimplemented()', 'panic site -> call of a function with `requires false`')],
@@ -228,9 +228,9 @@ def build(repo=None):
         rules=[R_TOSTRING, R_TONUMBER, R_COUNT2,
                Rule('R4', r'let r: String = v\s*\.chars\(\)\s*\.skip\(range\.start\)\s*\.take\(range\.end - range\.start\)\s*\.collect\(\);',
                     'let r: String = shim_skip_take(&v, range.start, range.end - range.start);', 'chars().skip().take().collect() -> shim')],
-        ensures=[('C09:selects_the_characters_of_the_range',
+        ensures=[('C05+C09:selects_the_characters_of_the_range',
                   'args@.len() == 2 && r is Ok ==> r->Ok_0 is Text && ({ let s = string_of(args@[0]); let (lo, hi) = spec_range(s.len(), number_of(args@[1]), None::<f64>); r->Ok_0->Text_0@ == s.subrange(lo, hi) })'),
-                 ('C09:selects_the_characters_of_the_range_with_length',
+                 ('C05+C09:selects_the_characters_of_the_range_with_length',
                   'args@.len() == 3 && r is Ok ==> r->Ok_0 is Text && ({ let s = string_of(args@[0]); let (lo, hi) = spec_range(s.len(), number_of(args@[1]), Some(number_of(args@[2]))); r->Ok_0->Text_0@ == s.subrange(lo, hi) })')],
         requires=[arity_req(ar['substring'])])
     fns['translate'] = Fn(
@@ -242,10 +242,10 @@ def build(repo=None):
                Rule('R40', r's2\.chars\(\)\.position\(\|v\| v == ch\)', 'shim_char_position(&s2, ch)', 'chars().position(closure) -> shim: first index'),
                Rule('R40', r's3\.chars\(\)\.nth\(index\)', 'shim_char_nth(&s3, index)', 'chars().nth -> shim'),
                Rule('R40', r'\br\.push\(ch\)', 'shim_string_push(&mut r, ch)', 'String::push -> shim')],
-        loops={0: dict(invariant=[('C09:prefix_translated', '__it.seq() == s1@ && r@ == translate_spec(s1@.take(__it.index@), s2@, s3@)')])},
+        loops={0: dict(invariant=[('C05+C09:prefix_translated', '__it.seq() == s1@ && r@ == translate_spec(s1@.take(__it.index@), s2@, s3@)')])},
         inject=[(r'shim_char_position\(&s2, ch\)', 'proof { lemma_first_index(s2@, ch); assert(s1@.take(__it.index@ + 1).drop_last() =~= s1@.take(__it.index@)); }', 'before'),
                 (r'^\s*Ok\(model::Value::Text\(r\)\)', 'proof { assert(s1@.take(s1@.len() as int) =~= s1@); }', 'before')],
-        ensures=[('C09:translate_maps_by_first_occurrence_and_removes_unmatched',
+        ensures=[('C05+C09:translate_maps_by_first_occurrence_and_removes_unmatched',
                   'r is Ok ==> r->Ok_0 is Text && r->Ok_0->Text_0@ == translate_spec(string_of(args@[0]), string_of(args@[1]), string_of(args@[2]))')])
     return ENV, fns
 
